@@ -456,18 +456,22 @@ func runC15Wiring(c *Ctx, names map[int64]string) {
 				return ok && s == "Retry-After"
 			}) {
 				found = true
-				okG := false
-				for _, cv := range controllingCondsDeep(ci.Block()) {
-					for v := range backSlice(cv) {
-						if bo, ok := v.(*ssa.BinOp); ok && bo.Op == token.EQL {
-							if _, isP := bo.X.(*ssa.Parameter); isP {
-								if k, isC := constInt(bo.Y); isC && (k == 429 || k == 503) {
-									okG = true
+				// the 429/503 test may sit in the function that writes the header or, when the writing was
+				// extracted into a helper, at every call of that helper
+				okG := p.heldAtOrAbove(ci, 3, func(b *ssa.BasicBlock) bool {
+					for _, cv := range controllingCondsDeep(b) {
+						for v := range backSlice(cv) {
+							if bo, ok := v.(*ssa.BinOp); ok && bo.Op == token.EQL {
+								if _, isP := bo.X.(*ssa.Parameter); isP {
+									if k, isC := constInt(bo.Y); isC && (k == 429 || k == 503) {
+										return true
+									}
 								}
 							}
 						}
 					}
-				}
+					return false
+				})
 				delay := sliceHasCall(ci.Common().Args[2], func(g *types.Func) bool { return g.Name() == "GetRetryDelay" })
 				c.Check(okG && delay, "receiver writes Retry-After for HTTP 429/503 from the status' RetryInfo", p.Pos(ci.Pos()), "keyed on the HTTP status", fmt.Sprintf("guarded by HTTP status 429/503=%v, value from RetryInfo=%v: the throttling delay is lost (or invented) on the hop", okG, delay))
 			}
